@@ -283,13 +283,14 @@ class Ctx:
             # rotate them out - a reachable state; queries and exports must leave it alone too
             try:
                 g = self.R.frombytes(bytes(f), max_queue_size=len(before["subs"]) - 1, hash_function=f.hash_function)
-                b0 = self.observe(g)
-                for k in self.keys:
-                    g.check(self.rk(k))
+                # what the loaded filter says BEFORE anything is exported (an implementation may legitimately trim an over-long queue while
+                # loading: only changes made by the queries / exports themselves count)
+                look = lambda: ({k: bool(g.check(self.rk(k))) for k in self.keys}, g.current_queue_size, g.expansions, g.elements_added)  # noqa
+                b0 = look()
                 data = bytes(g)
                 g.export(io.BytesIO())
-                g.expansions, g.elements_added, g.current_queue_size, g.max_queue_size  # noqa
-                same = self.observe(g) == b0 and bytes(g) == data == bytes(f)
+                g.max_queue_size  # noqa
+                same = look() == b0 and bytes(g) == data
             except Exception as exc:  # noqa
                 t.fail("C19", "C19.query_raises", ENGINE, rp(raised=repr(exc), loaded_with_smaller_queue=True), {"kind": kind})
                 return
